@@ -265,11 +265,6 @@ Proof.
   rewrite !rot32_fst, !rot32_snd by assumption. reflexivity.
 Qed.
 
-Lemma rotl64_32_w64b a : w64b a = true -> w64b (rotl64_32 a) = true.
-Proof.
-  intros H. wf64 H. unfold rotl64_32, shl64.
-  match goal with |- w64b ?e = true => replace e with (t64 e); [apply t64_w64b|unfold t64, M64; bb] end.
-Qed.
 
 Lemma a_force_new_ok k : wlanesb k = true ->
   exists s, a_force_new k = Ok s /\ AInv s /\ aabs s = L0 k.
@@ -338,3 +333,6 @@ Proof.
   destruct (a_of_portable_ok p Hi Hw (p_from_checkpoint_bytes prof c p E Hc)) as [HS HA].
   split; [exact HS|]. rewrite HA. exact Ha.
 Qed.
+
+Lemma ACwf_Hwf c : ACwf c -> Hwf (aabs_core c).
+Proof. intros H. exact H. Qed.
